@@ -141,6 +141,50 @@ func lookupRateScenario(kind string) string {
 	return fmt.Sprintf("c17 rate %s %s", kind, strings.Join(atts, ";"))
 }
 
+// cacheRegionsRateScenario: CacheRegions (the lookup of all regions of a table) against an
+// hbase:meta that does not answer: its attempts are spaced by the schedule, too. (CacheRegions
+// takes no context: hbase:meta is healed after 1.5 s so that the call returns.)
+func cacheRegionsRateScenario() string {
+	gohbase.VerifSetSleepOverride(nil)
+	c := newSimCluster()
+	c.addRegion(nil, []byte("t"), nil, nil, "rs1:1")
+	sc := newSimClient(c, gohbase.RegionLookupTimeout(20*time.Millisecond))
+	defer sc.cl.Close()
+	ctx, cancel := context.WithTimeout(context.Background(), 3*time.Second)
+	g, _ := hrpc.NewGet(ctx, []byte("t"), []byte("warm"))
+	_, werr := sc.cl.Get(g)
+	cancel()
+	c.mu.Lock()
+	c.metaSil = true
+	m0 := len(c.serves)
+	c.mu.Unlock()
+	t0 := time.Now()
+	done := make(chan error, 1)
+	go func() { done <- sc.cl.CacheRegions([]byte("t")) }()
+	time.Sleep(1500 * time.Millisecond)
+	c.mu.Lock()
+	var ts []time.Time
+	for _, s := range c.serves[m0:] {
+		if s.kind == "meta" {
+			ts = append(ts, s.at)
+		}
+	}
+	c.metaSil = false
+	c.mu.Unlock()
+	select {
+	case <-done:
+	case <-time.After(5 * time.Second):
+	}
+	var atts []string
+	for _, t := range ts {
+		atts = append(atts, fmt.Sprintf("x.cacheregions.%d", t.Sub(t0).Microseconds()))
+	}
+	if len(atts) == 0 || werr != nil {
+		atts = []string{"-"}
+	}
+	return fmt.Sprintf("c17 rate cacheregions %s", strings.Join(atts, ";"))
+}
+
 func init() { props["C17"] = runC17 }
 
 // runC17: the real sleepAndIncreaseBackoff, value by value along the schedule (all waits run
@@ -254,4 +298,5 @@ func runC17(tier string, seed uint64, out *Out) {
 	}
 	out.Line("%s", lookupRateScenario("zk-silent"))
 	out.Line("%s", lookupRateScenario("server-refuses"))
+	out.Line("%s", cacheRegionsRateScenario())
 }
